@@ -300,16 +300,16 @@ def run(ctx):
             v = to_poly(_eval_method(c, "normal_cdf", ["x", "mu", "sigma"]))
             # any exact form is accepted on any backend: the library's own cdf with (x, loc=mu, scale=sigma), the
             # distribution object's cdf, ndtr((x - mu)/sigma), or 0.5*erfc(-(x - mu)/(sigma*sqrt 2))
-            forms = [
-                Fraction(1, 2) * fn("erfc", -((x - mu) / (sigma * fn("sqrt", Poly.const(2))))),
-                fn("cdf", Poly.atom("Normal[mu,sigma]"), x),
-                fn("normcdf", x, mu, sigma),
-                fn("ndtr", (x - mu) / sigma),
-            ]
+            erfc_form = Fraction(1, 2) * fn("erfc", -((x - mu) / (sigma * fn("sqrt", Poly.const(2)))))
+            forms = [erfc_form, fn("cdf", Poly.atom("Normal[mu,sigma]"), x), fn("normcdf", x, mu, sigma), fn("ndtr", (x - mu) / sigma)]
+            if b == "pytorch":
+                # torch.special.ndtr and torch.distributions.Normal.cdf are 0.5*(1 + erf(z/sqrt 2)): 0 below -8.3 sigma (the
+                # scipy / jax / tensorflow routines of the same names switch to erfc in the tail) -- only the erfc form is exact
+                forms = [erfc_form]
             if any(v == w_ for w_ in forms):
                 ctx.holds(r4, f"{site}.normal_cdf", str(v))
             else:
-                ctx.violated(r4, cdf, "normal_cdf", "normal_cdf is none of the exact forms of Phi((x - mu)/sigma) (library cdf with loc=mu, scale=sigma; ndtr((x-mu)/sigma); 0.5*erfc(-(x-mu)/(sigma*sqrt 2)))", expected=" | ".join(str(w_) for w_ in forms), found=str(v))
+                ctx.violated(r4, cdf, "normal_cdf", "normal_cdf is none of the forms of Phi((x - mu)/sigma) that are exact in the far tails ON THIS LIBRARY (0.5*erfc(-(x-mu)/(sigma*sqrt 2)) everywhere; the library cdf / ndtr on numpy, jax, tensorflow -- torch's are built on erf and return 0 below -8.3 sigma)", expected=" | ".join(str(w_) for w_ in forms), found=str(v))
             if b in ("numpy", "jax"):
                 _kw_roles(ctx, r4, cdf, "cdf")
         except Undecided as e:
